@@ -171,7 +171,7 @@ func longInput(canon string, kind string) []byte {
 }
 
 // N-c: filt content classes.
-var nContents = []string{"random", "textlf", "textcrlf", "zero", "ptrprefix", "lookalike"}
+var nContents = []string{"random", "textlf", "textcrlf", "zero", "ptrprefix", "lookalike", "whitespace"}
 var nSizes = []int{1, 2, 100, 1023, 1024, 1025, 4096, 70000}
 
 // D: debatable spellings (not judged).
@@ -279,7 +279,9 @@ func selfCheck(in input) string {
 		if _, ok := ptrspec.ParseCanonical(in.B); ok {
 			return "class N input is a canonical pointer"
 		}
-		if len(bytes.TrimSpace(in.B)) == 0 {
+		// Non-empty input made of white space only is content: only the EMPTY file is the empty
+		// pointer (docs/spec.md). It is generated on purpose (kind N-c-whitespace) and nowhere else.
+		if len(bytes.TrimSpace(in.B)) == 0 && in.Kind != "N-c-whitespace" {
 			return "class N input is white space only"
 		}
 	}
